@@ -172,6 +172,31 @@ def promoted_name_collisions():
     }, {"/orders": {"get": {"operationId": "listOrders", "responses": {"200": jresp({"type": "array", "items": R("Order")})}}}})
 
 
+def shared_component_parameters():
+    """component parameters whose schemas need models of their own (inline enums, arrays of inline enums), referenced from several operations"""
+    params = {"Sort": {"name": "sort", "in": "query", "schema": {"type": "array", "items": {"type": "string", "enum": ["name", "-name", "age"]}}},
+              "View": {"name": "view", "in": "query", "schema": {"type": "string", "enum": ["full", "compact"]}},
+              "Limit": {"name": "limit", "in": "query", "schema": {"type": "integer"}}}
+    refs = [{"$ref": "#/components/parameters/" + n} for n in params]
+    d = doc("Shared", {"Pet": {"type": "object", "properties": {"name": {"type": "string"}}}, "Owner": {"type": "object", "properties": {"age": {"type": "integer"}}}}, {
+        "/pets": {"get": {"operationId": "listPets", "tags": ["pets"], "parameters": list(refs), "responses": {"200": jresp({"type": "array", "items": R("Pet")})}}},
+        "/owners": {"get": {"operationId": "listOwners", "tags": ["owners"], "parameters": list(refs), "responses": {"200": jresp({"type": "array", "items": R("Owner")})}}},
+        "/owners/{id}/pets": {"parameters": [{"name": "id", "in": "path", "required": True, "schema": {"type": "integer"}}],
+                              "get": {"operationId": "listOwnerPets", "tags": ["owners"], "parameters": [refs[0]], "responses": {"200": jresp({"type": "array", "items": R("Pet")})}}}})
+    d["components"]["parameters"] = params
+    return d
+
+
+def several_success_codes():
+    """operations declaring several of 200/201/202/204 with different contents, listed out of priority order"""
+    return doc("Jobs", {"Job": {"type": "object", "required": ["id"], "properties": {"id": {"type": "integer"}, "state": {"type": "string"}}},
+                        "JobTicket": {"type": "object", "required": ["ticket"], "properties": {"ticket": {"type": "string"}}}}, {
+        "/jobs": {"post": {"operationId": "createJob", "responses": {"201": jresp(R("Job")), "200": jresp(R("JobTicket"))}}},
+        "/jobs/{jobId}": {"parameters": [{"name": "jobId", "in": "path", "required": True, "schema": {"type": "integer"}}],
+                          "put": {"operationId": "replaceJob", "responses": {"202": jresp(R("JobTicket")), "200": jresp(R("Job"))}},
+                          "delete": {"operationId": "cancelJob", "responses": {"204": {"description": "cancelled"}, "200": jresp(R("Job"))}}}})
+
+
 REP = {
     "petstore": petstore,
     "unions": enums_and_unions,
@@ -181,6 +206,8 @@ REP = {
     "names": naming_collisions,
     "codes": redirects_and_codes,
     "promoted": promoted_name_collisions,
+    "shared_params": shared_component_parameters,
+    "multi2xx": several_success_codes,
     "no_ops": no_operations,
     "no_schemas": no_schemas,
 }
